@@ -426,4 +426,4 @@ def run_history(hist, paste_threshold=8, final_drain=True, pre=None, nostart=Fal
         cinput.is_main_thread = saved_main
         signal.signal(signal.SIGINT, old_handler)
         stream.close()
-    return {"paste": -1 if paste_threshold is None else paste_threshold, "ev": rec}
+    return {"paste": -1 if paste_threshold is None else paste_threshold, "ev": rec, "raw": 0}
